@@ -358,6 +358,16 @@ def run(tier, seed):
                         env[("MIMALLOC_" + o["legacy"].upper()).encode()] = g["v"]
                 pairs.add((o["i"], f["v"]))
                 jobs.append(R.job(b, "one", ["--mode", "env"], env=env, desc="%s" % env))
+        # (b2) two variables of which one name is a prefix of the other (eager_commit / eager_commit_delay, ...), in both orders and with
+        #      different values: the lookup must match the whole name
+        for o1 in opts:
+            for o2 in opts:
+                if o1 is not o2 and o2["name"].startswith(o1["name"]):
+                    for v1, v2 in ((b"0", b"4"), (b"1", b"7"), (b"on", b"12")):
+                        for order in (0, 1):
+                            n1, n2 = ("MIMALLOC_" + o1["name"].upper()).encode(), ("MIMALLOC_" + o2["name"].upper()).encode()
+                            env = {n2: v2, n1: v1} if order == 0 else {n1: v1, n2: v2}
+                            jobs.append(R.job(b, "one", ["--mode", "env"], env=env, desc="%s" % env))
         # (c) long / hostile values (few variables per process: the environment is part of the validated state)
         if b != "dbg" or not q:
             for k, lv in enumerate(long_values(rng)):
